@@ -520,6 +520,10 @@ fn value_tok(rng: &mut Rng, a: &ArgSpec, occ: usize, k: usize) -> String {
     if !a.allow_hyphen && rng.chance(1, 24) {
         return String::new();
     }
+    // so is the lone dash (conventionally "standard input"): one character, no flag in it
+    if a.delim.is_none() && rng.chance(1, 30) {
+        return "-".into();
+    }
     if a.allow_hyphen && rng.chance(2, 3) {
         return if rng.coin() { format!("-{}", base) } else { format!("--{}", base) };
     }
@@ -700,6 +704,20 @@ pub fn gen_intent(rng: &mut Rng, c: &CmdSpec, io: &IntentOpts) -> LevelIntent {
                     let s = rng.pick(&c.subs);
                     toks[j] = if s.aliases.is_empty() || rng.coin() { s.name.clone() } else { rng.pick(&s.aliases).0.clone() };
                 }
+                // an option that takes hyphen values also takes the exact spelling of another
+                // option of its level as a value
+                if a.allow_hyphen && !toks.is_empty() && a.delim.is_none() && rng.chance(1, 4) {
+                    let others: Vec<String> = c
+                        .args
+                        .iter()
+                        .filter(|x| !x.is_positional() && x.id != a.id)
+                        .filter_map(|x| x.long.as_ref().map(|l| format!("--{}", l)).or(x.short.map(|s| format!("-{}", s))))
+                        .collect();
+                    if !others.is_empty() {
+                        let j = rng.below(toks.len());
+                        toks[j] = rng.pick(&others).clone();
+                    }
+                }
                 let open = !a.require_equals && (hi == usize::MAX || ntok < hi);
                 li.items.push(Item::Opt { arg: *oi, toks });
                 if open && !closed_by_next {
@@ -800,7 +818,8 @@ pub fn gen_intent(rng: &mut Rng, c: &CmdSpec, io: &IntentOpts) -> LevelIntent {
     }
     // with infer_subcommands the empty string is a prefix of every name: where exactly one
     // subcommand exists it *is* that subcommand (clap's rule, not judged): no empty values there
-    if (c.has(Setting::InferSubcommands) || io.infer_subs_inherited) && !c.subs.is_empty() {
+    // (likewise where a subcommand is *named* `""`)
+    if ((c.has(Setting::InferSubcommands) || io.infer_subs_inherited) && !c.subs.is_empty()) || sub_names(c).iter().any(|n| n.is_empty()) {
         for it in li.items.iter_mut() {
             if let Item::Opt { arg, toks } | Item::Pos { arg, toks } = it {
                 for (j, t) in toks.iter_mut().enumerate() {
@@ -1273,7 +1292,9 @@ fn place_values(r: &mut Rendered, lvl: usize, arg: usize, a: &ArgSpec, tok: &str
     if tok.contains("\\x") {
         r.features.push(if off > 0 { "value.non-utf8-attached" } else { "value.non-utf8" });
     }
-    if tok.starts_with('-') {
+    if tok == "-" {
+        r.features.push("value.lone-dash");
+    } else if tok.starts_with('-') {
         r.features.push(if a.allow_hyphen { "value.hyphen-looking" } else { "value.negative-number" });
     }
     // one place per value after delimiter splitting, in order of appearance
